@@ -67,69 +67,90 @@ func runCode(code *gojq.Code, v any, vars []any, maxOut int, budget time.Duratio
 	}
 }
 
+// evalCase replays one case.
+func evalCase(c map[string]any, maxOut int, budget time.Duration, noast bool) vlib.M {
+	rec := vlib.M{"id": c["id"], "src": c["src"]}
+	src := c["src"].(string)
+	var q *gojq.Query
+	var perr error
+	func() {
+		defer func() {
+			if e := recover(); e != nil {
+				perr = fmt.Errorf("PANIC in Parse: %v", e)
+				rec["panic"] = fmt.Sprint(e)
+			}
+		}()
+		q, perr = gojq.Parse(src)
+	}()
+	if perr != nil {
+		rec["perr"] = perr.Error()
+		return rec
+	}
+	if !noast {
+		rec["ast"] = vlib.EncAST(q)
+	}
+	var code *gojq.Code
+	var cerr error
+	func() {
+		defer func() {
+			if e := recover(); e != nil {
+				cerr = fmt.Errorf("PANIC in Compile: %v", e)
+				rec["panic"] = fmt.Sprint(e)
+			}
+		}()
+		code, cerr = gojq.Compile(q)
+	}()
+	if cerr != nil {
+		rec["cerr"] = cerr.Error()
+		return rec
+	}
+	rep := vlib.RepNative
+	if r, ok := c["rep"].(float64); ok {
+		rep = vlib.Rep(int(r))
+	}
+	runs := []any{}
+	for _, iv := range c["inputs"].([]any) {
+		r := runCode(code, vlib.DecVal(iv, rep), nil, maxOut, budget)
+		run := vlib.M{"in": iv, "out": r.Out}
+		if r.Err != nil {
+			run["err"] = r.Err
+		}
+		if r.Panic != "" {
+			run["panic"] = r.Panic
+		}
+		if r.Long {
+			run["long"] = true
+		}
+		runs = append(runs, run)
+	}
+	rec["runs"] = runs
+	return rec
+}
+
 // cmdEval: cases {id, src, inputs:[V], rep?} -> records {id, src, ast, perr|cerr, runs:[...]}.
 func cmdEval(args []string) error {
 	fs := flag.NewFlagSet("eval", flag.ExitOnError)
 	in := fs.String("in", "", "cases ndjson")
 	out := fs.String("out", "", "trace ndjson")
 	maxOut := fs.Int("maxout", 400, "outputs per run before the run is cut")
-	budget := fs.Duration("budget", 2*time.Second, "time per run")
+	budget := fs.Duration("budget", time.Second, "time per run")
 	noast := fs.Bool("noast", false, "do not include the AST")
+	par := fs.Int("j", 8, "parallel workers")
 	fs.Parse(args)
+	var cases []map[string]any
+	if err := readNDJSON(*in, func(c map[string]any) error { cases = append(cases, c); return nil }); err != nil {
+		return err
+	}
+	recs := make([]vlib.M, len(cases))
+	parallel(len(cases), *par, func(i int) { recs[i] = evalCase(cases[i], *maxOut, *budget, *noast) })
 	w, err := newNDWriter(*out)
 	if err != nil {
 		return err
 	}
-	err = readNDJSON(*in, func(c map[string]any) error {
-		rec := vlib.M{"id": c["id"], "src": c["src"]}
-		src := c["src"].(string)
-		q, perr := gojq.Parse(src)
-		if perr != nil {
-			rec["perr"] = perr.Error()
-			return w.write(rec)
+	for _, r := range recs {
+		if err := w.write(r); err != nil {
+			return err
 		}
-		if !*noast {
-			rec["ast"] = vlib.EncAST(q)
-		}
-		var code *gojq.Code
-		var cerr error
-		func() {
-			defer func() {
-				if e := recover(); e != nil {
-					cerr = fmt.Errorf("PANIC in Compile: %v", e)
-					rec["panic"] = fmt.Sprint(e)
-				}
-			}()
-			code, cerr = gojq.Compile(q)
-		}()
-		if cerr != nil {
-			rec["cerr"] = cerr.Error()
-			return w.write(rec)
-		}
-		rep := vlib.RepNative
-		if r, ok := c["rep"].(float64); ok {
-			rep = vlib.Rep(int(r))
-		}
-		runs := []any{}
-		for _, iv := range c["inputs"].([]any) {
-			r := runCode(code, vlib.DecVal(iv, rep), nil, *maxOut, *budget)
-			run := vlib.M{"in": iv, "out": r.Out}
-			if r.Err != nil {
-				run["err"] = r.Err
-			}
-			if r.Panic != "" {
-				run["panic"] = r.Panic
-			}
-			if r.Long {
-				run["long"] = true
-			}
-			runs = append(runs, run)
-		}
-		rec["runs"] = runs
-		return w.write(rec)
-	})
-	if err != nil {
-		return err
 	}
 	return w.close()
 }
